@@ -26,6 +26,7 @@ static int sink_open(struct archive *a, void *d) { (void)a; (void)d; return ARCH
 static la_ssize_t sink_write(struct archive *a, void *d, const void *p, size_t n)
 {
 	(void)a; struct sink *s = d;
+	if (n == 0) return 0;
 	if (s->n + n > s->cap) { s->cap = (s->n + n) * 2 + 4096; s->b = realloc(s->b, s->cap); }
 	memcpy(s->b + s->n, p, n); s->n += n;
 	return (la_ssize_t)n;
@@ -264,7 +265,7 @@ static void f_end(void) {}
 
 static void f_op(char *line)
 {
-	char *w[10]; int n = vh_split(line, w, 10);
+	char *w[16]; int n = vh_split(line, w, 16);
 	int fl[8];
 	if (n == 8 && !strcmp(w[0], "rt")) {
 		int nf = parse_stack(w[1], fl);
@@ -295,6 +296,26 @@ static void f_op(char *line)
 		printf("wa=%s wb=%s wcodes=%s encA=%zu encB=%zu psig=%d", vh_st(wa), vh_st(wb), wcodes, sa.n, sb.n, payload_claimed(both, an + bn));
 		decode(fl, nf, !strcmp(w[7], "all"), cat, sa.n + sb.n, strtoul(w[6], NULL, 10), both, an + bn);
 		free(sa.b); free(sb.b); free(cat); free(both); free(pa); free(pb);
+	} else if (n >= 8 && n % 2 == 0 && !strcmp(w[0], "mmn")) {
+		/* mmn <filter> <rblock> <mode> <opts1> <payload1> <opts2> <payload2> [...]: members written
+		 * separately, each with its own options, concatenated and read back as one stream */
+		int nf = parse_stack(w[1], fl);
+		if (nf < 0) { printf("bad-op\n"); return; }
+		struct sink cat = { NULL, 0, 0 }, both = { NULL, 0, 0 }; char wcodes[128] = "", optst[256];
+		int worst = ARCHIVE_OK; char sizes[128] = "";
+		for (int i = 4; i + 1 < n; i += 2) {
+			size_t pn = 0; unsigned char *p = mk_payload(w[i + 1], &pn);
+			if (!p) { printf("bad-op\n"); return; }
+			struct sink sk = { NULL, 0, 0 };
+			int r = encode(fl, nf, w[i], p, pn, (i / 2) % 2 ? "c4097" : "all", "-/1", &sk, wcodes, sizeof wcodes, optst, sizeof optst);
+			if (r < worst) worst = r;
+			size_t l = strlen(sizes); snprintf(sizes + l, sizeof sizes - l, "%s%zu", l ? "," : "", sk.n);
+			sink_write(NULL, &cat, sk.b, sk.n); sink_write(NULL, &both, p, pn);
+			free(sk.b); free(p);
+		}
+		printf("w=%s wcodes=%s encs=%s psig=%d", vh_st(worst), wcodes, sizes, payload_claimed(both.b, both.n));
+		decode(fl, nf, !strcmp(w[3], "all"), cat.b, cat.n, strtoul(w[2], NULL, 10), both.b, both.n);
+		free(cat.b); free(both.b);
 	} else if (n == 6 && !strcmp(w[0], "tr")) {
 		/* tr <text stack> <opts> <payload> <cut> <rblock>: encode, keep only a prefix of the encoded
 		 * bytes ("-k": drop the last k bytes, "pN": keep N/1000 of them, "lJ": begin line + J lines), read with exactly those filters.
